@@ -7,6 +7,8 @@ COMMON_ASSUME = [
 ]
 
 TIERS = {
+    "C19": {"quick": {"runs": 500, "budget_s": 70, "run_timeout_s": 300},
+            "thorough": {"runs": 8000, "budget_s": 900, "run_timeout_s": 600}},
     "C18": {"quick": {"runs": 200, "budget_s": 90, "run_timeout_s": 400},
             "thorough": {"runs": 3000, "budget_s": 900, "run_timeout_s": 900}},
     "C12": {"quick": {"runs": 300, "budget_s": 80, "run_timeout_s": 300},
@@ -39,6 +41,20 @@ TM_RULE = ("case = (generated program, argument, seeded history of trace transit
            "or a fault fired")
 
 META = {
+    "C19": {"LEVEL": "exploration",
+            "RULE": "case = (generated program placing save / tag_state / leaf-mode save inside nested functions, namespaces, scans "
+                    "(nested, namespaces around scans), vmap and modular_vmap; configuration eager / jit / seed(state(f)) / "
+                    "state(seed(f)) / jit(seed(state(f)))); distinct = distinct (configuration, program shape); non-trivial = "
+                    "program contains a namespace, scan or vmap",
+            "COMPONENTS": {"real": ["genjax.state (State interpreter, save, tag_state, namespace, scan handling, batch rules)",
+                                    "genjax.pjax.Seed / ModularVmap", "jax.jit / jax.vmap / lax.scan"],
+                           "stub": ["sim/jaxcompat.py"], "regimes": "REAL (eager / jit / seed)"},
+            "ASSUMPTIONS": COMMON_ASSUME + ["saved values are also returned through ordinary JAX outputs; the expected dictionary is the "
+                                            "last-writer-wins fold of the static save events over those outputs",
+                                            "the pure clauses (eager transparency) are op-level comparisons with no scheduling content"],
+            "REQUIRED_PROBES": {"quick": ["cfg_eager", "cfg_jit", "cfg_seed", "has_ns", "has_scan", "has_vmap"],
+                                "thorough": ["cfg_eager", "cfg_jit", "cfg_seed", "cfg_state_of_seed", "has_ns", "has_scan", "has_vmap",
+                                             "has_mvmap", "ns_around_scan", "nested_scan", "scan_in_vmap", "has_leaf"]}},
     "C18": {"LEVEL": "exploration",
             "RULE": "case = (generated model, kernel in {mh, mala, hmc, composite saving several diagnostics, deterministic}, selection, "
                     "(n_steps, burn_in, thinning, n_chains), regime SCRIPTED (chain vs Python-loop fold under the same script) or REAL "
@@ -136,6 +152,9 @@ META = {
 
 DST = "deterministic simulation with fault injection"
 CLAIMS = {
+    "C19": dict(text="save events as messages, the returned dict as delivery: exactly-once, last-writer-wins, in-order stacking, checked for generated placements under eager/jit/seed against the fold of the same events over the program's own returned values",
+                ref="DESIGN.md 4 C19", note="eager-only clauses are op-level comparisons; save inside cond branches is outside the claim and not generated",
+                technique=DST + " (event-history oracle over save messages; REAL regime under seed/jit)"),
     "C18": dict(text="history refinement: chain(kernel) under a script vs a Python-loop fold of the same kernel under the same script, for seeded (n_steps, burn_in, thinning, n_chains) and kernels; REAL thinned run vs slice of the un-thinned run bit for bit",
                 ref="DESIGN.md 4 C18", note="script-identical randomness is provided by the SCRIPTED seam; sampled grids", technique=DST + " (SCRIPTED randomness seam, recorded iterate history vs fold)"),
     "C12": dict(text="the resampling randomness is a schedule decision: systematic offsets swept over a grid and all cell boundaries, categorical index vectors enumerated completely for N<=4; copy faithfulness, weight reset, lml conservation, floor/ceil copies and exact expected copies checked per script",
